@@ -69,6 +69,77 @@ class Atom(Obj):
         return self.__dict__["serial"]
 
 
+class Rec:
+    """Concrete abstract record with *value* semantics, supplied by a rule.
+
+    Unlike ``Obj`` a record never turns into a term: equality is identity, it is
+    hashable, so membership tests, ``Counter``, sets and dict keys over records
+    stay concrete (no fork per comparison).  Attributes are the given ``attrs``;
+    methods/properties of ``cls`` ("module:Class") resolve like for ``Obj``;
+    ``classes`` are the short class names ``isinstance`` accepts in addition.
+    Any rule-side class may take part through the same duck-typed protocol
+    (``sx_getattr(sx, attr, node)``, ``sx_isinstance(sx, cname)``,
+    ``sx_setattr(attr, value)``, ``sx_term()``, ``sx_str(sx)``)."""
+
+    def __init__(self, cls=None, label=None, classes=(), /, **attrs):
+        self.cls = cls
+        self.label = label or (cls or "rec")
+        self.classes = tuple(classes)
+        self.attrs = dict(attrs)
+
+    def __repr__(self):
+        return f"<{self.label}>"
+
+    def __deepcopy__(self, memo):
+        return self
+
+    def sx_term(self):
+        return sym(self.label)
+
+    def sx_setattr(self, attr, value):
+        self.attrs[attr] = value
+
+    def sx_str(self, sx):
+        """str(record) / f"{record}": the class's own __str__, evaluated (None if it has none)."""
+        m = sx.find_method(self.cls, "__str__") if self.cls else None
+        if m is None:
+            return None
+        r = sx._invoke(Func(m[0], [], m[0]._module, m[0]._qual, bound=self), [], {}, None)
+        return r if isinstance(r, str) else None
+
+    def sx_isinstance(self, sx, cname):
+        if cname in self.classes:
+            return True
+        if self.cls:
+            return cname == self.cls.split(":")[-1].split(".")[-1] or cname in sx._bases(self.cls)
+        return False
+
+    def sx_getattr(self, sx, attr, node):
+        if attr in self.attrs:
+            return self.attrs[attr]
+        m = sx.find_method(self.cls, attr) if self.cls else None
+        if m is not None:
+            fn, _ = m
+            decos = [U(d).split(".")[-1].split("(")[0] for d in fn.decorator_list]
+            f = Func(fn, [], fn._module, fn._qual, bound=self)
+            if "property" in decos or "cached_property" in decos:
+                hk = ".".join(fn._qual.split(".")[-2:])
+                if hk in sx.hooks and callable(sx.hooks[hk]):
+                    return sx.hooks[hk](sx, [self], {})
+                if sx.inline(f"{fn._module.name}:{fn._qual}"):
+                    return sx._invoke(f, [], {}, node)
+                return T("attr", self.sx_term(), attr)
+            if "staticmethod" in decos:
+                f.bound = None
+            return f
+        if self.cls:
+            mod, _, q = self.cls.partition(":")
+            m = sx.model.modules.get(mod)
+            if m is not None and q in m.classes:
+                return sx.getattr(ClassRef(m, q), attr, node)
+        sx.unsupported(node, f"attribute {attr} of the record {self.label} is not modelled")
+
+
 class Func:
     def __init__(self, node, frames, module, qual=None, bound=None):
         self.node, self.frames, self.module, self.qual, self.bound = node, frames, module, qual, bound
@@ -595,6 +666,8 @@ class Symex:
                 obj.attrs[t.attr] = v
             elif isinstance(obj, T):
                 self.effects.append(T("setattr", obj, t.attr, v))
+            elif hasattr(obj, "sx_setattr"):
+                obj.sx_setattr(t.attr, v)
             else:
                 self.unsupported(t)
         else:
@@ -733,6 +806,13 @@ class Symex:
                     return a / b
                 except TypeError:
                     self.unsupported(node, "division of unsupported values")
+            if hasattr(a, "sx_getattr") or hasattr(b, "sx_getattr"):      # rule-side number domain
+                try:
+                    return a / b
+                except ZeroDivisionError:
+                    raise Raised("ZeroDivisionError", None, node)
+                except TypeError:
+                    pass
             self.unsupported(node, "true division")
         if isinstance(op, ast.Pow) and is_num(a) and isinstance(b, int):
             return t_pow(a, b)
@@ -948,8 +1028,11 @@ class Symex:
                     x = self.ev(v.value)
                     if isinstance(x, Obj):
                         x = x.term
-                    if _plain(x) and v.format_spec is None and v.conversion == -1:
-                        parts.append(str(x))
+                    if _plain(x) and v.format_spec is None and v.conversion in (-1, 115, 114):
+                        parts.append(repr(x) if v.conversion == 114 else str(x))
+                    elif hasattr(x, "sx_str") and v.format_spec is None and v.conversion in (-1, 115) \
+                            and isinstance(x.sx_str(self), str):
+                        parts.append(x.sx_str(self))
                     else:
                         symbolic = True
                         parts.append(_freeze(x) if not isinstance(x, T) else x)
@@ -1104,6 +1187,10 @@ class Symex:
             return getattr(obj, attr)
         if isinstance(obj, Func) and attr == "__name__":
             return getattr(obj.node, "name", "<lambda>")
+        if hasattr(obj, "sx_getattr"):
+            return obj.sx_getattr(self, attr, node)
+        if obj is None:
+            raise Raised("AttributeError", f"'NoneType' object has no attribute '{attr}'", node)
         if self.attr_hook is not None:
             # model values supplied by a rule (hooks may return arbitrary python objects)
             r = self.attr_hook(self, obj, attr, node)
@@ -1412,6 +1499,10 @@ class Symex:
             return self.isinstance(args[0], args[1], node)
         if name == "print":
             return None
+        if name == "str" and len(args) == 1 and not kw and hasattr(args[0], "sx_str"):
+            r = args[0].sx_str(self)
+            if isinstance(r, str):
+                return r
         if name == "getattr":
             if isinstance(args[1], str):
                 try:
@@ -1538,6 +1629,8 @@ class Symex:
                 if r is not None:
                     return r
             return T("isinstance", obj, cname)
+        if hasattr(obj, "sx_isinstance"):
+            return obj.sx_isinstance(self, cname)
         py = {"int": int, "str": str, "list": list, "tuple": tuple, "dict": dict, "set": set, "float": float,
               "bool": bool, "frozenset": frozenset}
         if cname in py:
@@ -1769,6 +1862,8 @@ def _freeze(v):
         return sym(v.name)
     if isinstance(v, slice):
         return T("slice_", v.start, v.stop, v.step)
+    if hasattr(v, "sx_term"):
+        return v.sx_term()
     return v
 
 
